@@ -4,13 +4,15 @@ CONSTANTS
   N = 4
   Byz <- NoByz
   Nodes <- Obs1
-  Blk0 <- T4
+  Blk0s <- ST4
   MaxBlocks = 11
   MaxRestarts = 2
   ByzMode = "branch"
   ByzRanges <- R123
+  Runs = FALSE
+  BadKinds <- OnlyOk
   Fixes <- AllFixes
 VIEW view
-INVARIANTS TypeOK LibOnMain ConfirmsOnMain Agreement HonestConfirms
-PROPERTIES LibMonotone Final NoForkBelowLib LibQuorum RestoreEqualsRecompute
+INVARIANTS TypeOK LibOnMain ConfirmsOnMain ProposalsOnMain StatusBestIsBest Agreement HonestConfirms
+PROPERTIES LibMonotone Final NoForkBelowLib LibQuorum RestoreEqualsRecompute AfterAbandonedReorgStatusMatchesMainChain
 CHECK_DEADLOCK FALSE
